@@ -21,10 +21,12 @@ for d in sorted(glob.glob(os.path.join(os.path.dirname(__file__), "..", "seeded"
     fired = m.get("checks_that_fired", [])
     mon = m.get("first_monitor_per_check", {}).get(own, "")
     mon = mon.split(" ")[0] if mon else ""
-    rows.append((m["id"], own, "yes" if own in fired else "**NO**", mon, " ".join(fired), what))
+    status = "obsolete (see meta.json)" if m.get("status", "").startswith("obsolete") else ("yes" if own in fired else "**NO**")
+    rows.append((m["id"], own, status, mon, " ".join(fired), what))
 print("| seeded change | property | caught by its own check | first monitor that fired | all quick checks that fired | what the change is |")
 print("|---|---|---|---|---|---|")
 for r in rows:
     print("| " + " | ".join(r) + " |")
 print()
-print(f"{len(rows)} seeded changes; {sum(1 for r in rows if r[2]=='yes')} caught by the owning property's quick check.")
+live = [r for r in rows if not r[2].startswith("obsolete")]
+print(f"{len(rows)} seeded changes, {len(live)} of them valid on the current tree; {sum(1 for r in live if r[2]=='yes')} of those caught by the owning property's quick check.")
